@@ -287,3 +287,13 @@ Section OrdHoare.
       exists st', nf', r'. split; [reflexivity|]. split; [repeat split; assumption|exact HQ].
   Qed.
 End OrdHoare.
+
+(* assertions pinned to a position *)
+Definition at_pos {S} (x : nat) (A : @assertion S) : @assertion S := fun all p s => p = x /\ A all p s.
+Lemma hoare_at {S} nfields handle skipf (P Q : @assertion S) es x :
+  hoare nfields handle skipf P es Q -> hoare nfields handle skipf (at_pos x P) es (at_pos (x + length (enc_elems es)) Q).
+Proof.
+  intros H all p st nf r fuel rest [Hp HP] V Hs Hwf Hf Hb. subst p.
+  destruct (H all x st nf r fuel rest HP V Hs Hwf Hf Hb) as (st' & nf' & r' & f' & E & V' & Hf' & HQ).
+  exists st', nf', r', f'. split; [exact E|]. split; [exact V'|]. split; [exact Hf'|]. split; [reflexivity|exact HQ].
+Qed.
